@@ -69,6 +69,7 @@ func constStrings(p *Prog, v ssa.Value) []string {
 }
 
 func runC18(c *Ctx) {
+	alwaysRewritten(c, c.P, "R3", "transports/obfs4:newBridgeFile", "the bridge line an operator copies must describe the identity and options of THIS start, also after an override or an explicit identity")
 	// a persisted (or overridden) iat-mode that the range check refuses blocks every later start
 	{
 		p := c.P
